@@ -56,7 +56,7 @@ structure Entry where
   pred : Int
   lc : Int := 0
   rc : List Nat := []
-deriving Repr, Inhabited
+deriving Repr, Inhabited, DecidableEq
 
 abbrev Hist := Array Entry
 
